@@ -83,13 +83,18 @@ def variants(algo, tier):
                 ("linesearch-normalize", {"init": "random", "linesearch": True, "normalize_factors": True}, 10 if q else 14),
                 ("l2reg", {"init": "random", "l2_reg": 0.5}, 4 if q else 8),
                 ("fixed-mode0", {"init": "random", "fixed_modes": [0]}, 4 if q else 8),
-                ("mask", {"init": "random", "mask": "MASK"}, 4 if q else 8)]
+                ("mask", {"init": "random", "mask": "MASK"}, 4 if q else 8),
+                # the second tensor-algebra implementation is a configuration like any other
+                ("einsum-normalize", {"init": "random", "normalize_factors": True, "tenalg": "einsum"}, 5 if q else 8),
+                ("einsum-plain-svd", {"init": "svd", "tenalg": "einsum"}, 4 if q else 8)]
     elif algo == "non_negative_parafac_hals":
         out += [("svd", {"init": "svd"}, 3 if q else 6), ("random", {"init": "random"}, 3 if q else 6),
                 ("normalize", {"init": "random", "normalize_factors": True}, 3 if q else 5),
-                ("nn-mode0", {"init": "random", "nn_modes": [0]}, 3 if q else 5)]
+                ("nn-mode0", {"init": "random", "nn_modes": [0]}, 3 if q else 5),
+                ("einsum-normalize", {"init": "random", "normalize_factors": True, "tenalg": "einsum"}, 3 if q else 5)]
     elif algo == "tucker":
-        out += [("svd", {"init": "svd"}, 4 if q else 8), ("random", {"init": "random"}, 4 if q else 8)]
+        out += [("svd", {"init": "svd"}, 4 if q else 8), ("random", {"init": "random"}, 4 if q else 8),
+                ("einsum-random", {"init": "random", "tenalg": "einsum"}, 4 if q else 6)]
     elif algo == "parafac2":
         out += [("random", {"init": "random", "linesearch": False}, 4 if q else 7), ("svd", {"init": "svd", "linesearch": False}, 4 if q else 7),
                 ("nn-0", {"init": "random", "linesearch": False, "nn_modes": [0]}, 3 if q else 5),
@@ -97,13 +102,17 @@ def variants(algo, tier):
                 ("linesearch", {"init": "random", "linesearch": True}, 10 if q else 14),
                 ("linesearch-svd", {"init": "svd", "linesearch": True}, 10 if q else 14),
                 ("linesearch-normalize", {"init": "random", "linesearch": True, "normalize_factors": True}, 10 if q else 14),
-                ("normalize", {"init": "random", "linesearch": False, "normalize_factors": True}, 3 if q else 6)]
+                ("normalize", {"init": "random", "linesearch": False, "normalize_factors": True}, 3 if q else 6),
+                ("einsum-normalize", {"init": "random", "linesearch": False, "normalize_factors": True, "tenalg": "einsum"}, 3 if q else 5)]
     elif algo == "tensor_ring_als":
         out += [("lstsq", {"ls_solve": "lstsq"}, 4 if q else 8), ("normal_eq", {"ls_solve": "normal_eq"}, 4 if q else 8)]
     elif algo == "cmtf":
         out += [("svd", {"init": "svd"}, 4 if q else 8), ("random", {"init": "random"}, 4 if q else 8)]
     elif algo in ("CPRegressor", "TuckerRegressor"):
         out += [("reg0.1", {"reg_W": 0.1}, 4 if q else 8), ("reg1", {"reg_W": 1.0}, 4 if q else 8), ("reg10", {"reg_W": 10.0}, 3 if q else 6)]
+        if algo == "CPRegressor":  # tensor-valued responses: the output-mode factors have their own update branch
+            out += [("tensor-y-reg1", {"reg_W": 1.0, "y_out": [2]}, 4 if q else 8), ("tensor-y-reg100", {"reg_W": 100.0, "y_out": [2]}, 4 if q else 8),
+                    ("tensor-y2-reg10", {"reg_W": 10.0, "y_out": [2, 3]}, 5 if q else 12), ("tensor-y2-reg100", {"reg_W": 100.0, "y_out": [2, 3]}, 4 if q else 8)]
     elif algo == "hals_nnls":
         out += [("cold", {"warm": False}, 0), ("warm", {"warm": True}, 0), ("sparsity", {"warm": True, "sparsity_coefficient": 0.3}, 0),
                 ("ridge", {"warm": True, "ridge_coefficient": 0.5}, 0),
@@ -285,7 +294,7 @@ class C07(Check):
                     ctx.violation(f"{tag}/reported-errors-increase", f"{case}: reported errors {seq} increase at index {j}")
                     break
         # ---------------- differential reference sweep (non-initial states)
-        if algo == "parafac" and case["variant"] in ("plain-svd", "plain-random", "normalize-random", "normalize-svd", "l2reg", "fixed-mode0"):
+        if algo == "parafac" and case["variant"] in ("plain-svd", "plain-random", "normalize-random", "normalize-svd", "l2reg", "fixed-mode0", "einsum-normalize", "einsum-plain-svd"):
             modes = None if "fixed" not in case["variant"] else [m for m in range(len(shape)) if m != 0]
             for k in range(K):
                 if not (conditioned(chain[k]) and conditioned(chain[k + 1])):
@@ -330,7 +339,10 @@ class C07(Check):
         shape, rank, seed = tuple(case["shape"]), case["rank"], case["seed"]
         X = V.generic(shape, seed + 3) * 4
         Wtrue = V.ints(shape[1:], seed + 5, 2)
-        y = np.tensordot(X, Wtrue, axes=len(shape) - 1) + 0.1 * V.generic((shape[0],), seed + 9)
+        y_out = tuple(case["cfg"].get("y_out", ()))
+        if y_out:
+            Wtrue = V.ints(shape[1:] + y_out, seed + 5, 2)
+        y = np.tensordot(X, Wtrue, axes=len(shape) - 1) + 0.1 * V.generic((shape[0],) + y_out, seed + 9)
         reg = case["cfg"]["reg_W"]
         tag = f"{case['algo']}/{case['variant']}"
         chain = []
@@ -353,11 +365,11 @@ class C07(Check):
                 G, fs = est.tucker_weight_
                 W = itm.tucker_dense(G, fs)
                 pen = sum(float(np.linalg.norm(np.asarray(f)) ** 2) for f in fs) + float(np.linalg.norm(np.asarray(G)) ** 2)
-            res = y - np.tensordot(X, W, axes=len(shape) - 1)
+            res = (y - np.tensordot(X, W, axes=len(shape) - 1)).ravel()
             chain.append(float(res @ res) + reg * pen)
         ctx.states += len(chain)
         ctx.traces += len(chain)
-        scale = float(y @ y)
+        scale = float(y.ravel() @ y.ravel())
         for k in range(len(chain) - 1):
             ctx.transitions += 1
             a, b = chain[k], chain[k + 1]
